@@ -4,6 +4,9 @@ import (
 	"fmt"
 	"math/rand"
 	"strings"
+
+	"github.com/vektah/gqlparser/v2/ast"
+	"github.com/vektah/gqlparser/v2/parser"
 )
 
 var kindWeights = []struct {
@@ -110,6 +113,9 @@ func (s *Session) Classes() []string {
 				mode = "http"
 			}
 			out = append(out, fmt.Sprintf("%s/rej=%s/%s/%s/sugg=%v/exts=%d/%s", q.Kind, q.Rej.K, ck, conc, s.Cfg.Sugg, len(s.Cfg.Exts), mode))
+			if q.Rule != "" {
+				out = append(out, fmt.Sprintf("rule=%s/%s/%s/%s/sugg=%v", q.Rule, q.Kind, ck, conc, s.Cfg.Sugg))
+			}
 		}
 	}
 	return out
@@ -143,4 +149,94 @@ func genCacheHistory(rng *rand.Rand, id string, maxReqs int) *Session {
 		s.Steps = append(s.Steps, []*Request{&cp})
 	}
 	return s
+}
+
+// otherOpName is an operation name different from the one the document was
+// first sent with: the name of its first named operation if there is one
+// (then the operation is found), else a name that does not exist.
+func otherOpName(query, first string) string {
+	doc, err := parser.ParseQuery(&ast.Source{Input: query})
+	if err == nil {
+		for _, op := range doc.Operations {
+			if op.Name != "" && op.Name != first {
+				return op.Name
+			}
+		}
+	}
+	if first == "" {
+		return "X"
+	}
+	return ""
+}
+
+// GenRuleSweep builds the systematic part of the request space: EVERY
+// per-rule invalid document (rules.go) is sent under suggestions enabled and
+// disabled, with every cache kind, as a first request, as a repeated request
+// of the same text (a second time under another operation name) and
+// concurrently with others; the valid near-misses of the same rules are sent
+// first and repeated (cache hit) too. variant varies extension lists and the
+// driving mode (direct / HTTP).
+func GenRuleSweep(rng *rand.Rand, variant int) []*Session {
+	var out []*Session
+	caches := []Config{{CK: "none"}, {CK: "map"}, {CK: "lru", CN: 1}, {CK: "lru", CN: 2}}
+	near := map[string][]RuleDoc{}
+	for _, d := range NearMiss {
+		near[fmt.Sprint(d.QOnly)+d.Rule] = append(near[fmt.Sprint(d.QOnly)+d.Rule], d)
+	}
+	mk := func(d RuleDoc, kind string) *Request {
+		q := &Request{Kind: kind, Rej: Rej{K: "none"}}
+		q.FromRuleDoc(d)
+		return q
+	}
+	for _, qonly := range []bool{false, true} {
+		var docs []RuleDoc
+		for _, d := range InvalidByRule {
+			if d.QOnly == qonly {
+				docs = append(docs, d)
+			}
+		}
+		for _, sugg := range []bool{true, false} {
+			for ci, cc := range caches {
+				perm := rng.Perm(len(docs))
+				for i := 0; i < len(perm); i += 3 {
+					var chunk []RuleDoc
+					for _, j := range perm[i:min(len(perm), i+3)] {
+						chunk = append(chunk, docs[j])
+					}
+					c := Config{ID: fmt.Sprintf("rules%d-%v-%v-%d-%d", variant, qonly, sugg, ci, i/3), Rules0: []string{"FOCT"},
+						CK: cc.CK, CN: cc.CN, Sugg: sugg, QOnly: qonly, Exts: []HookSet{}}
+					c.HTTP = (variant+ci+i/3)%4 == 3
+					for k, n := 0, 1+rng.Intn(2); k < n; k++ {
+						c.Exts = append(c.Exts, HookSetOf(pick(rng, typicalMasks)))
+					}
+					s := &Session{Cfg: c}
+					for _, d := range chunk { // first
+						s.Steps = append(s.Steps, []*Request{mk(d, "invalid")})
+					}
+					for _, d := range chunk { // repeated, under another operation name
+						q := mk(d, "invalid")
+						q.OpName = otherOpName(d.Query, d.OpName)
+						s.Steps = append(s.Steps, []*Request{q})
+					}
+					var conc []*Request // concurrent
+					for _, d := range chunk {
+						conc = append(conc, mk(d, "invalid"))
+					}
+					s.Steps = append(s.Steps, conc)
+					// valid near-misses of the same rules: first, repeated (hit), concurrent
+					var nm []RuleDoc
+					for _, d := range chunk {
+						nm = append(nm, near[fmt.Sprint(d.QOnly)+d.Rule]...)
+					}
+					if len(nm) > 0 {
+						a := pick(rng, nm)
+						b := pick(rng, nm)
+						s.Steps = append(s.Steps, []*Request{mk(a, "valid")}, []*Request{mk(a, "valid"), mk(b, "valid")})
+					}
+					out = append(out, s)
+				}
+			}
+		}
+	}
+	return out
 }
